@@ -71,11 +71,19 @@ func checkC02(c *km.Ctx) {
 			// the map is created in this call, or by a constructor of the module every return of which is a map made there
 			var maps_ []*ssa.MakeMap
 			fresh := false
+			customAliases := []ssa.Value{custom}
 			if mk, ok := extMap.(*ssa.MakeMap); ok {
 				fresh = true
 				maps_ = append(maps_, mk)
 			} else if cl, idx := callRes(extMap); cl != nil && idx == 0 {
-				if g := km.StaticCallee(cl.Common()); g != nil && g.Blocks != nil && c.InModule(g) && len(g.Params) == 0 {
+				g := km.StaticCallee(cl.Common())
+				// a constructor without parameters, or one that is handed the caller's custom extensions to copy in
+				okParams := g != nil && len(g.Params) == 0
+				if g != nil && len(g.Params) == 1 && len(cl.Common().Args) == 1 && km.Unwrap(cl.Common().Args[0]) == ssa.Value(custom) {
+					okParams = true
+					customAliases = append(customAliases, g.Params[0])
+				}
+				if g != nil && g.Blocks != nil && c.InModule(g) && okParams {
 					fresh = true
 					for _, rc := range s.RetCases(g) {
 						mk, ok := km.Unwrap(rc.Results[0]).(*ssa.MakeMap)
@@ -101,7 +109,15 @@ func checkC02(c *km.Ctx) {
 					return false
 				}
 				rg, ok := nx.Iter.(*ssa.Range)
-				return ok && km.Unwrap(rg.X) == ssa.Value(custom)
+				if !ok {
+					return false
+				}
+				for _, al := range customAliases {
+					if km.Unwrap(rg.X) == al {
+						return true
+					}
+				}
+				return false
 			}
 			// every use of the map (in the constructor and here) is classified
 			var holders []ssa.Value
